@@ -12,6 +12,10 @@ from lib import common as C
 MAGIC = b"Ftrace!\0"
 
 # the 8 basic states of DIR / DIR.old
+class Link(str):
+    """a symbolic link (the string is its target)"""
+
+
 def basic_states():
     return {
         "absent": None,
@@ -23,6 +27,11 @@ def basic_states():
         "is-a-file": b"i am a file",
         "bad-info": {"info": b"not magic", "default.opts": b""},
         "only-hidden": {".git": {"config": b"[core]"}, ".secret": b"s"},
+        # symbolic links that lead out of the directory (to the bystander next to it): never followed
+        "uftrace-with-links": {"info": MAGIC, "out": Link("../bystander"), "f": Link("../bystander/keep"),
+                               "sub": {"up": Link("../../bystander")}},
+        "uftrace-dangling-link": {"info": MAGIC, "dangling": Link("nowhere"), "x": b"1"},
+        "foreign-with-link": {"l": Link("../bystander")},
     }
 
 
@@ -35,7 +44,11 @@ def rand_tree(rng, depth=0):
     for _ in range(rng.randint(1, 4)):
         n = rng.choice(names)
         r = rng.random()
-        if r < 0.25 and n not in ("info",):
+        if rng.random() < 0.12:
+            # a link named info/default.opts does not resolve (model assumption); others lead outside
+            t[n] = Link("nowhere") if n in ("info", "default.opts") else \
+                Link(rng.choice(["../" * (depth + 1) + "bystander", "../" * (depth + 1) + "bystander/keep", "nowhere"]))
+        elif r < 0.25 and n not in ("info",):
             t[n] = rand_tree(rng, depth + 1)
         elif n == "info":
             t[n] = rng.choice([MAGIC, MAGIC + b"\x01", b"Ftrace", b"", b"garbage!!", {}])
@@ -55,6 +68,9 @@ def rand_state(rng):
 
 def materialize(path, node):
     if node is None:
+        return
+    if isinstance(node, Link):
+        os.symlink(str(node), path)
         return
     if isinstance(node, bytes):
         with open(path, "wb") as f:
@@ -90,6 +106,9 @@ def parse_tree(tokens):
             if t == "F":
                 d[tokens[pos + 1]] = bytes.fromhex("" if tokens[pos + 2] == "-" else tokens[pos + 2])
                 pos += 3
+            elif t == "L":
+                d[tokens[pos + 1]] = Link(tokens[pos + 2])
+                pos += 3
             elif t == "D":
                 name = tokens[pos + 1]
                 pos += 2
@@ -105,9 +124,9 @@ def parse_tree(tokens):
 def is_uftrace(n):
     if not isinstance(n, dict):
         return False
-    if "info" in n:
+    if "info" in n and not isinstance(n["info"], Link):      # open() of an unresolved link fails
         return isinstance(n["info"], bytes) and n["info"][:8] == MAGIC
-    return "default.opts" in n
+    return "default.opts" in n and not isinstance(n["default.opts"], Link)
 
 
 def can_remove(n):
@@ -171,7 +190,7 @@ def run(ctx):
         materialize(os.path.join(parent, "DIR"), dstate)
         materialize(os.path.join(parent, "DIR.old"), ostate)
         if others:
-            materialize(os.path.join(parent, "bystander"), {"keep": b"me"})
+            materialize(os.path.join(parent, "bystander"), {"keep": b"me", "more": {"deep": b"precious"}})
         cases.append(("cd %s DIR %s" % (parent, faults), desc))
 
     # exhaustive 9 x 9 grid x {no fault, each single fault}
@@ -242,7 +261,7 @@ def run(ctx):
             prefix_match += is_prefix
             if bad:
                 monitor_fail += 1
-            if first_replays < 3:
+            if (first_replays < 3 and not bad) or (bad and monitor_fail <= 3):
                 first_replays += 1
                 C.violation(ctx, "case%d" % i, {
                     "kind": "property-violated-on-implementation" if bad else "model-code-disagreement",
@@ -270,7 +289,7 @@ def run(ctx):
         "samples": samples,
     })
     ctx.assumptions += [
-        "POSIX semantics of rename/mkdir/rmdir/unlink on a tree-shaped file system without symlinks",
+        "POSIX semantics of rename/mkdir/rmdir/unlink/lstat/symlink; a symbolic link named info or default.opts inside DIR, and DIR / DIR.old themselves when they are links, do not resolve (the probes that follow links are modelled for that case only)",
         "fault injection = EACCES from the k-th call of an interposed libc function",
         "read-side probes (access/open/opendir) are not made to fail: they define what 'uftrace directory' means",
     ]
@@ -318,14 +337,14 @@ def e2e(ctx):
     try:
         for mode in ("local", "host", "live"):
             for dn in states:
-                for on in (["absent", "foreign-file", "uftrace-opts-only"] if mode != "live" else ["absent"]):
+                for on in (["absent", "foreign-file", "uftrace-opts-only", "uftrace-with-links"] if mode != "live" else ["absent"]):
                     if mode == "live" and dn not in ("absent", "foreign-file"):
                         continue
                     parent = os.path.join(work, "%s-%s-%s" % (mode, dn, on))
                     os.makedirs(parent)
                     materialize(os.path.join(parent, "DIR"), bs[dn])
                     materialize(os.path.join(parent, "DIR.old"), bs[on])
-                    materialize(os.path.join(parent, "bystander"), {"keep": b"me"})
+                    materialize(os.path.join(parent, "bystander"), {"keep": b"me", "more": {"deep": b"precious"}})
                     pre = snapshot_tree(parent)
                     cmd = [uft, "record", "--libmcount-path=" + os.path.join(ctx.src, "libmcount"), "--no-event", "-d", "DIR"]
                     if mode == "host":
@@ -355,6 +374,32 @@ def e2e(ctx):
                                 "command": " ".join(cmd + ["./prog"]), "DIR_before": dn, "DIR.old_before": on,
                                 "after": sorted(post.keys()), "uftrace_rc": rc,
                                 "theorem": "c20_foreign_untouched / c20_record_run_foreign_untouched"})
+        # the receiving side: a directory of the same name in the receiver's working directory that is
+        # somebody else's data must stay as it is (recv must not write into it)
+        for dn in ("foreign-file", "bad-info", "foreign-nested", "is-a-file"):
+            name = "R" + dn.replace("-", "")
+            materialize(os.path.join(work, "rcv", name), bs[dn])
+            pre = snapshot_tree(os.path.join(work, "rcv", name))
+            parent = os.path.join(work, "hostfrom-" + dn)
+            os.makedirs(parent)
+            cmd = [uft, "record", "--libmcount-path=" + os.path.join(ctx.src, "libmcount"), "--no-event", "-d", name,
+                   "--host", "127.0.0.1", "--port", str(port)]
+            try:
+                rc = subprocess.run(cmd + [prog], cwd=parent, stdout=subprocess.PIPE, stderr=subprocess.PIPE, timeout=60).returncode
+            except subprocess.TimeoutExpired:
+                rc = -999
+            time.sleep(0.3)
+            post = snapshot_tree(os.path.join(work, "rcv", name))
+            runs += 1
+            if pre != post:
+                bad += 1
+                if bad <= 3:
+                    C.violation(ctx, "e2e-recv-%s" % dn, {
+                        "kind": "property-violated-on-implementation",
+                        "what": "uftrace recv wrote into a directory of its working directory that is not uftrace data",
+                        "command": " ".join(cmd + ["./prog"]), "receiver_dir_before": dn,
+                        "before": sorted(pre) if isinstance(pre, dict) else "file", "after": sorted(post) if isinstance(post, dict) else "file",
+                        "uftrace_rc": rc, "theorem": "c20_foreign_untouched (create_directory refused; the caller must not go on)"})
     finally:
         rcv.kill()
         rcv.wait()
